@@ -17,8 +17,8 @@
    payload text in the eight encodings.
 
    Exceptions: [Err ValueError] = ValueError proper; [Err UnicodeErr] = UnicodeEncodeError (a subclass of
-   ValueError); [Err TypeErr] = an exception that is NOT a ValueError (decimal.InvalidOperation, an
-   ArithmeticError, raised for amount = NaN or an unparsable amount string). *)
+   ValueError).  No other exception class occurs for inputs of the documented types (state of helpers.py after
+   commit 662d46b: decimal.InvalidOperation is caught and turned into ValueError). *)
 From Coq Require Import ZArith List Bool.
 From Segno Require Import Base.PyLite Model.Color.
 Import ListNotations.
@@ -229,7 +229,8 @@ Record vcard_args := {
   vc_zipcode : option str;
   vc_country : option str;
   vc_org : option str;
-  vc_lat : option (bool * str);        (* (bool(lat), str(lat)) *)
+  vc_lat : option (bool * str);        (* (bool(lat), str(lat)); the bool is IGNORED since commit 6ed14bf
+                                          (only `lat is None` matters); kept so that the type is stable *)
   vc_lng : option (bool * str);
   vc_source : option str;
   vc_rev : option (str * bool);
@@ -257,7 +258,8 @@ Definition vcard_adr (props : list (option str)) : list str :=
        end
   else [].
 
-Definition geo_truthy (o : option (bool * str)) : bool := match o with Some (b, _) => b | None => false end.
+(* `x is not None` *)
+Definition geo_given (o : option (bool * str)) : bool := match o with Some _ => true | None => false end.
 Definition geo_text (o : option (bool * str)) : str := match o with Some (_, s) => s | None => [] end.
 
 (* birthday / rev: `if v:` ... `if not _looks_like_datetime(v): raise ValueError` ... f'{name}:{v}' *)
@@ -284,9 +286,10 @@ Definition vcard_lines (a : vcard_args) : res (list str) :=
     ++ vcard_opt K_NICKNAME (vc_nickname a)
     ++ vcard_adr (vcard_adr_props a) in
   do bday <- vcard_date K_BDAY (vc_birthday a);
-  let lat := geo_truthy (vc_lat a) in
-  let lng := geo_truthy (vc_lng a) in
-  if (lat && negb lng) || (lng && negb lat) then Err ValueError else
+  let lat := geo_given (vc_lat a) in
+  let lng := geo_given (vc_lng a) in
+  (* if (lat is None) != (lng is None): raise ValueError *)
+  if negb (Bool.eqb lat lng) then Err ValueError else
   let geo := if lat && lng then [vline K_GEO (geo_text (vc_lat a) ++ [59] ++ geo_text (vc_lng a))] else [] in
   let tail1 := vcard_opt K_SOURCE (vc_source a) ++ vcard_opt K_NOTE (vc_memo a) in
   do rev <- vcard_date K_REV (vc_rev a);
@@ -387,12 +390,12 @@ Definition email_addr_part (delim : Z) (key : str) (vals : list str) : str * Z :
   | _ => ([delim] ++ key ++ [61] ++ join [44] vals, 38)
   end.
 
-(* one step of `for key, val in (('subject', subject), ('body', body))`; the delimiter becomes '&' afterwards
-   whether or not the value was given *)
-Definition email_text_part (delim : Z) (key : str) (val : option str) : res str :=
+(* one step of `for key, val in (('subject', subject), ('body', body))`: returns (text appended, new delim);
+   the delimiter becomes '&' only when the value was written (commit 578204b) *)
+Definition email_text_part (delim : Z) (key : str) (val : option str) : res (str * Z) :=
   match val with
-  | Some v => do q <- quote_utf8 v; Ok ([delim] ++ key ++ [61] ++ q)
-  | None => Ok []
+  | Some v => do q <- quote_utf8 v; Ok ([delim] ++ key ++ [61] ++ q, 38)
+  | None => Ok ([], delim)
   end.
 
 Definition make_make_email_data (to cc bcc : list str) (subject body : option str) : res str :=
@@ -401,8 +404,8 @@ Definition make_make_email_data (to cc bcc : list str) (subject body : option st
   | _ =>
     let '(p_cc, d1) := email_addr_part 63 K_cc cc in
     let '(p_bcc, d2) := email_addr_part d1 K_bcc bcc in
-    do p_subject <- email_text_part d2 K_subject subject;
-    do p_body <- email_text_part 38 K_body body;
+    do (p_subject, d3) <- email_text_part d2 K_subject subject;
+    do (p_body, _) <- email_text_part d3 K_body body;
     Ok (K_mailto ++ join [44] to ++ p_cc ++ p_bcc ++ p_subject ++ p_body)
   end.
 
@@ -420,7 +423,8 @@ Definition EPC_ENCODINGS : list str :=
    [105; 115; 111; 45; 56; 56; 53; 57; 45; 49; 53] (* iso-8859-15 *)].
 
 (* amount: int / float / Decimal given by its exact value; ABad = a string decimal.Decimal cannot parse
-   (not a documented type, kept to show the exception class) *)
+   (not a documented type).  decimal.InvalidOperation (ABad: conversion, ANaN: comparison) is caught by the
+   function and becomes `in_range = False`, i.e. ValueError. *)
 Inductive amount := AFin (d : dec) | ANaN | AInf (neg : bool) | ABad.
 Inductive epc_encoding := EncNone | EncName (s : str) | EncNum (n : Z).
 
@@ -461,8 +465,8 @@ Definition epc_amount_str (d : dec) : str := py_trim (K_EUR ++ format_fixed 2 d)
 
 Definition epc_check_amount (a : amount) : res dec :=
   match a with
-  | ABad => Err TypeErr                 (* decimal.InvalidOperation (ConversionSyntax) *)
-  | ANaN => Err TypeErr                 (* decimal.InvalidOperation raised by the comparison *)
+  | ABad => Err ValueError              (* decimal.InvalidOperation (ConversionSyntax) caught *)
+  | ANaN => Err ValueError              (* decimal.InvalidOperation of the comparison caught *)
   | AInf _ => Err ValueError
   | AFin d => if amount_in_range d then Ok d else Err ValueError
   end.
